@@ -68,7 +68,11 @@ def r04(ctx):
             for s in a.blocks[b]['s']:
                 r = s.get('r')
                 if r and r['k'] == 'agg' and r['ak'] == 'tuple' and len(r['ops']) == 2:
-                    tups.append(a.flow.rvalue(r, 0))
+                    te = a.flow.rvalue(r, 0)
+                    # only the (Option<Chunk>, consumed) result pairs (debug assertions build other tuples)
+                    c0 = te[3][0][1]
+                    if (c0[0] == 'agg' and 'Option' in c0[2]) or (c0[0] == 'local' and 'Option<deduplication::chunking::Chunk>' in a.flow.lty(c0[1])):
+                        tups.append(te)
         ok = ok and len(tups) >= 2 and all(t[3][1][1] == cl for t in tups)
     ctx.check(ok, 'R04b', NEXT, 'consumed=appended', a.loc(ex[0]) if ex else '-', 'exactly data[0..consume_len] is appended to the chunk buffer and consume_len is what next reports as consumed')
     # who builds chunks
@@ -127,7 +131,7 @@ def r04c(ctx):
         ctx.check(ok, 'R04c', NEXT, 'skip bound', a.loc(b, si), 'the skip is min(minimum_chunk - cur_chunk_len - .., input still unconsumed)',
                   'the minimum-size skip does not subtract the bytes already in the open chunk (or is not limited by the unconsumed input): boundaries then depend on how the stream is split across calls')
         # the same amount advances the input cursor
-        cu = [u2 for bb in [b] for s2 in a.blocks[bb]['s'] for u2 in [paths.additive_update(a, s2)] if u2 and len(u2[0]) == 1 and flow.eqv(u2[2], e)]
+        cu = [u2 for bb in sorted(a.cfg.reach0) for s2 in a.blocks[bb]['s'] for u2 in [paths.additive_update(a, s2)] if u2 and len(u2[0]) == 1 and flow.eqv(u2[2], e)]
         ctx.check(len(cu) == 1, 'R04c', NEXT, 'skip cursor', a.loc(b, si), 'the input cursor advances by the same amount as cur_chunk_len')
     # (ii) search window
     nm = a.calls('gearhash::Hasher::next_match')
